@@ -109,6 +109,17 @@ type logBatch struct {
 
 // knownLog reconstructs, for one partition, every batch whose offset is known:
 // acknowledged produces (offset from the reply) and batches present in S3.
+// knownLogBefore: the batches acknowledged (acks != 0, code 0) before scheduler step `step`.
+func (w *w1) knownLogBefore(topic string, part int32, step int) []logBatch {
+	var out []logBatch
+	for _, r := range w.ledger {
+		if r.topic == topic && r.part == part && r.answered && r.code == 0 && !r.malformed && r.acks != 0 && r.ret < step {
+			out = append(out, logBatch{base: r.base, count: r.nrec, raw: r.sent, rec: r})
+		}
+	}
+	return out
+}
+
 func (w *w1) knownLog(topic string, part int32) []logBatch {
 	byMarker := map[string]*produceRec{}
 	for _, r := range w.ledger {
@@ -202,6 +213,18 @@ func (w *w1) opFetch(client, seq int, op simrt.Op) {
 func (w *w1) onFetchReply(fr *fetchRec) {
 	w.sim.Note("fetch-reply %s/%d@%d max=%d code=%d hw=%d bytes=%d", fr.topic, fr.part, fr.offset, fr.maxBytes, fr.code, fr.hw, len(fr.data))
 	w.judgeHealthFetch(fr)
+	if fr.code == 1 && w.prop == "C04" && fr.maxBytes > 0 && w.sim.Stats.FaultsFired["store.err"] == 0 {
+		// OFFSET_OUT_OF_RANGE for an offset that an acknowledged, stored batch holds (known before the fetch was sent).
+		// (Not judged once a metadata-store write was refused: the broker acknowledges a produce whose end-offset
+		// update failed, the published high watermark stays behind, and the offset is then not "below the high
+		// watermark" in the statement's sense.)
+		for _, k := range w.knownLogBefore(fr.topic, fr.part, fr.invoke) {
+			if fr.offset >= k.base && fr.offset < k.base+int64(k.count) {
+				w.sim.Fail("C04", "fetch-out-of-range-below-hw", "fetch %s/%d@%d max=%d was answered OFFSET_OUT_OF_RANGE although the acknowledged batch %d..%d holds the offset", fr.topic, fr.part, fr.offset, fr.maxBytes, k.base, k.base+int64(k.count)-1)
+				return
+			}
+		}
+	}
 	if fr.code != 0 {
 		return
 	}
@@ -336,7 +359,12 @@ func (w *w1) judgeProgress(fr *fetchRec, known []logBatch, batches []*kbatch.Bat
 			return // a batch the ledger does not know (acks=0, unanswered) holds the offset: that is progress
 		}
 		if b.BaseOffset > target.base {
-			return // skipping is C03's clause
+			if target.base <= fr.offset && w.prop == "C04" {
+				// the reply went past the stored batch that holds o without containing it: a consumer positioned
+				// at o never sees the records o..end of that batch (the statement's first sentence)
+				w.sim.Fail("C04", "fetch-skips-batch-holding-offset", "fetch %s/%d@%d max=%d below hw=%d returns batch %d.. but not the stored batch %d..%d that holds the offset", fr.topic, fr.part, fr.offset, fr.maxBytes, fr.hw, b.BaseOffset, target.base, target.base+int64(target.count)-1)
+			}
+			return // (a reply that starts after a gap is C03's clause)
 		}
 	}
 	// the start of the target may be in the trailing partial batch: any
